@@ -282,4 +282,96 @@ theorem nearest_lt (cfg : Cfg S D) (tree : Array (Node S)) (q : S) (h : 0 < tree
         · exact ih1 (by omega)
   exact (key tree.size (Nat.le_refl _)).2 h
 
+/-! ### states stay in bounds (given that interpolation does) -/
+
+/-- what `rrt_inbounds` needs from the space: the bounds predicate is preserved by `interpolate` at parameters in the
+unit interval (`UnitT`), and the two ways RRT produces parameters land in the unit interval -/
+structure ConvexBounds (cfg : Cfg S D) (UnitT : D → Prop) : Prop where
+  interp : ∀ a b t, cfg.bounds a = true → cfg.bounds b = true → UnitT t → cfg.bounds (cfg.interp a b t) = true
+  div : ∀ d, cfg.lt cfg.maxDistance d = true → UnitT (cfg.div cfg.maxDistance d)
+  frac : ∀ j n, 0 < j → j < n → UnitT (cfg.frac j n)
+
+def AllInB (cfg : Cfg S D) (tree : Array (Node S)) : Prop :=
+  ∀ (i : Nat) (nd : Node S), tree[i]? = some nd → cfg.bounds nd.state = true
+
+theorem addChain_inB (cfg : Cfg S D) (l : List S) :
+    ∀ (tree : Array (Node S)) (p : Nat), AllInB cfg tree → (∀ s ∈ l, cfg.bounds s = true) →
+      AllInB cfg (addChain tree p l).1 := by
+  induction l with
+  | nil => intro tree p h _; exact h
+  | cons s r ih =>
+    intro tree p h hl
+    apply ih
+    · intro i nd hi
+      rw [Array.getElem?_push] at hi
+      split at hi
+      · simp only [Option.some.injEq] at hi
+        subst hi
+        exact hl s (by simp)
+      · exact h i nd hi
+    · intro x hx; exact hl x (List.mem_cons_of_mem _ hx)
+
+theorem motionStates_inB (cfg : Cfg S D) (UnitT : D → Prop) (hc : ConvexBounds cfg UnitT) (a b : S)
+    (ha : cfg.bounds a = true) (hb : cfg.bounds b = true) : ∀ s ∈ motionStates cfg a b, cfg.bounds s = true := by
+  intro s hs
+  unfold motionStates at hs
+  simp only at hs
+  split at hs
+  · simp only [List.mem_singleton] at hs; subst hs; exact hb
+  · simp only [List.mem_append, List.mem_map, List.mem_range, List.mem_singleton] at hs
+    rcases hs with ⟨j, hj, rfl⟩ | rfl
+    · exact hc.interp a b _ ha hb (hc.frac (j + 1) _ (by omega) (by omega))
+    · exact hb
+
+theorem step_inB (cfg : Cfg S D) (UnitT : D → Prop) (hc : ConvexBounds cfg UnitT) (st : St S D) (dr : Draw S)
+    (h : AllInB cfg st.tree) (hd : cfg.bounds dr.state = true) : AllInB cfg (step cfg st dr).tree := by
+  unfold step
+  simp only
+  split
+  · exact h
+  · next nm hnm =>
+    have hnmB := h _ nm hnm
+    generalize hds : (if cfg.lt cfg.maxDistance (cfg.dist nm.state dr.state) = true then
+      cfg.interp nm.state dr.state (cfg.div cfg.maxDistance (cfg.dist nm.state dr.state)) else dr.state) = dstate
+    have hdB : cfg.bounds dstate = true := by
+      subst hds
+      split
+      · next hlt => exact hc.interp _ _ _ hnmB hd (hc.div _ hlt)
+      · exact hd
+    split
+    · have hadd : AllInB cfg (addChain st.tree (nearest cfg st.tree dr.state)
+          (if cfg.addIntermediate = true then motionStates cfg nm.state dstate else [dstate])).1 := by
+        apply addChain_inB cfg _ _ _ h
+        split
+        · exact motionStates_inB cfg UnitT hc _ _ hnmB hdB
+        · intro s hs; simp only [List.mem_singleton] at hs; subst hs; exact hdB
+      split
+      · exact h
+      · split
+        · exact hadd
+        · split
+          · exact hadd
+          · exact hadd
+    · exact h
+
+theorem loop_inB (cfg : Cfg S D) (UnitT : D → Prop) (hc : ConvexBounds cfg UnitT) (script : List (Draw S)) :
+    ∀ st : St S D, AllInB cfg st.tree → (∀ dr ∈ script, cfg.bounds dr.state = true) →
+      AllInB cfg (loop cfg st script).1.tree := by
+  induction script with
+  | nil => intro st h _; exact h
+  | cons dr rest ih =>
+    intro st h hd
+    simp only [loop]
+    have h1 := step_inB cfg UnitT hc st dr h (hd dr (by simp))
+    split
+    · exact h1
+    · exact ih _ h1 (fun x hx => hd x (List.mem_cons_of_mem _ hx))
+
+theorem initTree_inB (cfg : Cfg S D) (starts : Array S) : AllInB cfg (initTree cfg starts).1 := by
+  intro i nd h
+  have := (initTree_inv cfg starts).1 i nd h
+  rw [(initTree_inv cfg starts).2 i nd h] at this
+  obtain ⟨_, _, _, hb, _⟩ := this
+  exact hb
+
 end OmplModel.RRT
